@@ -8,7 +8,7 @@ package log
 // line: L kind D0 ndays {dayoff nrec {name renamed hash size}*nrec}*ndays
 //         nq {name hash aoff asec boff bsec}*nq
 //       = {nlines {hexline}*nlines}*ndays {ans}*nq nparsed {name renamed hash size time}*nparsed
-// kind 0 = receive log, 1 = sent log. Day offsets are relative to today (UTC).
+// kind 0 = receive log, 1 = sent log. Day offsets are relative to today (local calendar day of the process).
 // LC line: concurrent writers:  LC n {hexline-expected}*n = m {hexline-found}*m
 
 import (
@@ -50,9 +50,23 @@ func verifLogCase(w *bufio.Writer, tmp string, caseNo int, kind int, days []vlDa
 	root := filepath.Join(tmp, fmt.Sprintf("log%d", caseNo))
 	os.RemoveAll(root)
 	defer os.RemoveAll(root)
-	now := time.Now().UTC()
-	d0 := now.Unix() / 86400
-	midnight := time.Unix(d0*86400, 0).UTC()
+	// the process's time zone: every third case runs half a day away from UTC, on the side on which the
+	// local calendar date differs from the UTC date right now (the day files are named after the LOCAL
+	// date of the writer; look-ups get local times from their callers). Days, offsets and seconds of
+	// the line are local ones: a fixed zone only shifts the time axis.
+	savedLocal := time.Local
+	defer func() { time.Local = savedLocal }()
+	if caseNo%3 == 1 {
+		if time.Now().UTC().Hour() < 12 {
+			time.Local = time.FixedZone("verif-12", -12*3600)
+		} else {
+			time.Local = time.FixedZone("verif+12", 12*3600)
+		}
+	}
+	now := time.Now()
+	_, zoff := now.In(time.Local).Zone()
+	d0 := (now.Unix() + int64(zoff)) / 86400
+	midnight := time.Unix(d0*86400-int64(zoff), 0).In(time.Local)
 	// today's records must be written last
 	sort.SliceStable(days, func(i, j int) bool { return days[i].off < days[j].off })
 	fmt.Fprintf(w, "L %d %d %d", kind, d0, len(days))
